@@ -10,7 +10,7 @@ use serde_json::{json, Value};
 pub static ENGINE: Engine = Engine {
     prop: "C09",
     level: "exploration",
-    rule: "every reference-free AST with <= N nodes over a binder-heavy alphabet (names a, b, c, X used free and bound; quantifier lists [], [a], [b], [a,b], [X], [c] where c occurs nowhere else; lfp/gfp on X and on a; not, & |, if, counting) printed as text and given to the real parser under the default order, under the reversed explicit order (ids 0.. in vector order) and — one size smaller — under the reversed order handed over as a vector listed in descending id order with gapped ids: free_vars == reference FV(AST) listed in variable order; vars == every name of the text exactly once in variable order; raw2free / to_free_index map exactly the free variables to their position; every variable tested by eval() is free. Through the binary: `rsbdd -r` on every AST <= 3 (4) nodes prints every name of the text once in variable order. Plus and/or chains over 33 and 70 variables with binders around ids 31/32/n-1. distinct = distinct (formula text, ordering)",
+    rule: "every reference-free AST with <= N nodes over a binder-heavy alphabet (names a, b, c, X used free and bound; quantifier lists [], [a], [b], [a,b], [X], [c] where c occurs nowhere else; lfp/gfp on X and on a; not, & |, if, counting) printed as text and given to the real parser under the default order, under the reversed explicit order (ids 0.. in vector order) and — one size smaller — under the reversed order handed over as a vector listed in descending id order with gapped ids: free_vars == reference FV(AST) listed in variable order; vars == every name of the text exactly once in variable order; raw2free / to_free_index map exactly the free variables to their position; every variable tested by eval() is free. Through the binary: `rsbdd -r` on every AST <= 3 (4) nodes prints every name of the text once in variable order. A re-binding family (outer binder of four kinds or with a repeated list around an inner binder of the same name, the name used again afterwards; 1 080 formulas) through the API and through `rsbdd -t` (columns = free variables). Plus and/or chains over 33 and 70 variables with binders around ids 31/32/n-1. distinct = distinct (formula text, ordering)",
     assumptions: &["reference FV = names with an occurrence not enclosed by a quantifier or fixed-point binder of the same name (harness/src/refl.rs)", "AST size bound; evaluation only where the reference finds all fixed points convergent"],
     max_shards: 64,
     run,
@@ -123,6 +123,42 @@ fn check(ctx: &mut Ctx, a: &Ast, text: &str, rev: bool) {
     }
 }
 
+/// re-binding: an outer binder (exists / forall / lfp / gfp, also with the name listed twice)
+/// around an inner binder of the SAME name, with the name used again after the inner binder
+/// closes — on either side of the connective — and a free use outside everything
+fn rebinding_family() -> Vec<Ast> {
+    let x = || Ast::var("x");
+    let a = || Ast::var("a");
+    let binder = |kind: usize, body: Ast| -> Ast {
+        match kind {
+            0 => Ast::q(true, &["x"], body),
+            1 => Ast::q(false, &["x"], body),
+            2 => Ast::fp("x", false, body),
+            3 => Ast::fp("x", true, body),
+            4 => Ast::q(true, &["x", "x"], body),
+            _ => Ast::q(false, &["a", "x", "a"], body),
+        }
+    };
+    let mut out = vec![];
+    for outer in 0..6 {
+        for inner in 0..6 {
+            for inner_body in [x(), Ast::bin(Bin::Or, x(), a()), a()] {
+                for op in [Bin::And, Bin::Or] {
+                    let i = binder(inner, inner_body.clone());
+                    // use after the inner binder closed, inside the outer scope
+                    out.push(binder(outer, Ast::bin(op, i.clone(), x())));
+                    out.push(binder(outer, Ast::bin(op, x(), i.clone())));
+                    out.push(binder(outer, Ast::bin(op, i.clone(), Ast::bin(Bin::Or, x(), a()))));
+                    // and a free use outside everything
+                    out.push(Ast::bin(op, binder(outer, i.clone()), x()));
+                    out.push(Ast::bin(op, x(), binder(outer, Ast::bin(Bin::And, i.clone(), x()))));
+                }
+            }
+        }
+    }
+    out
+}
+
 fn run(ctx: &mut Ctx) {
     let upto = if ctx.thorough() { 6 } else { 5 };
     let cli_upto = if ctx.thorough() { 4 } else { 3 };
@@ -130,6 +166,36 @@ fn run(ctx: &mut Ctx) {
     let mut idx = 0u64;
     wide(ctx, &mut idx);
     long_names(ctx, &mut idx);
+    for a in rebinding_family() {
+        idx += 1;
+        if ctx.mine(idx) {
+            let text = refl::pp(&a, refl::MINIMAL);
+            if refl::parse(&text).as_ref() != Ok(&a) {
+                panic!("machinery: round trip failed for {text}");
+            }
+            check(ctx, &a, &text, false);
+            check(ctx, &a, &text, true);
+            ctx.count("rebinding_formulas", 1);
+            // and through the binary: the -t header is the list of free variables
+            if !a.has_fp() || Sem::new(&a.names()).eval_closed(&a).is_some() {
+                let c = json!({"part": "cli-t", "text": text});
+                ctx.begin_case(|| c.clone());
+                ctx.count("evaluations", 1);
+                let r = crate::cli::run_bin("rsbdd", &[format!("--evaluate={text}"), "-t".to_string()], None, &[]);
+                match crate::cli::parse_table(&r.out()) {
+                    _ if !r.ok() => ctx.violation(format!("{TAG} rsbdd -t: {text}"), format!("failed: {} {}", r.describe(), r.err_tail()), c),
+                    Err(e) => ctx.violation(format!("{TAG} rsbdd -t: {text}"), format!("unreadable table: {e}"), c),
+                    Ok(t) => {
+                        let fv = a.free_names();
+                        let want: Vec<String> = a.names().into_iter().filter(|n| fv.contains(n)).collect();
+                        if t.header != want {
+                            ctx.violation(format!("{TAG} rsbdd -t: {text}"), format!("table columns {:?}, free variables in variable order {:?}", t.header, want), c);
+                        }
+                    }
+                }
+            }
+        }
+    }
     for size in 1..=upto {
         let mut todo = vec![];
         let flush = |ctx: &mut Ctx, todo: &mut Vec<Ast>| {
@@ -231,6 +297,16 @@ fn long_names(ctx: &mut Ctx, idx: &mut u64) {
 
 fn replay(ctx: &mut Ctx, c: &Value) {
     let text = c["text"].as_str().unwrap_or("");
+    if c["part"].as_str() == Some("cli-t") {
+        if let Ok(a) = refl::parse(text) {
+            let r = crate::cli::run_bin("rsbdd", &[format!("--evaluate={text}"), "-t".to_string()], None, &[]);
+            match crate::cli::parse_table(&r.out()) {
+                Ok(t) if r.ok() && t.header == a.names().into_iter().filter(|n| a.free_names().contains(n)).collect::<Vec<_>>() => {}
+                _ => ctx.violation(format!("{TAG} rsbdd -t: {text}"), format!("the table columns are not the free variables {:?} ({})", a.free_names(), r.describe()), c.clone()),
+            }
+        }
+        return;
+    }
     if c["part"].as_str() == Some("cli-r") {
         if let Ok(a) = refl::parse(text) {
             let r = crate::cli::run_bin("rsbdd", &[format!("--evaluate={text}"), "-r".to_string()], None, &[]);
